@@ -40,7 +40,7 @@ ATOMS = [(), (2,), (3, 2), (2, 1, 3)]
 PROFILES = [[3], [2, 0], [0, 2], [1, 2, 3], [0, 0, 4], [2, 0, 3, 0, 1, 4, 2]]
 ORIGIN = {'darr': 0, 'numpymemmap': 0, 'idl': 0, 'julia': 1, 'maple': 1, 'mathematica': 1, 'matlab': 1, 'R': 1, 'scilab': 1}
 TABLELANG = {'julia': 'julia_ver1'}
-MUST_HIT = ['after-history-on-live-handle'] + ['lang:' + l for l in LANGS] + [f'atomrank:{i}' for i in range(4)] + ['zero-length-subarray', 'withheld', 'offered', 'no-values',
+MUST_HIT = ['after-history-on-live-handle', 'handle-opened-by-relative-path'] + ['lang:' + l for l in LANGS] + [f'atomrank:{i}' for i in range(4)] + ['zero-length-subarray', 'withheld', 'offered', 'no-values',
                                                                                  'path:rel', 'path:base', 'path:abs', 'len:1', 'len:2', 'len>=3'] + \
            ['indextype:' + t for t in INDEXTYPES]
 ORD = {'first': 1, 'second': 2, 'third': 3}
@@ -132,7 +132,20 @@ def _execute(ctx, spec):
         root, apath, other = layout(d)
         ra, items = make_ragged(spec, apath)
         basepath = 'data/x.darr'
-        code = ra.readcode(lang, abspath=(pm == 'abs'), basepath=(basepath if pm == 'base' else None))
+        if spec.get('relopen'):
+            # the handle is opened through a RELATIVE path; the generated code must not depend on the working directory it was generated in
+            out.cls('handle-opened-by-relative-path')
+            old = os.getcwd()
+            os.chdir(root)
+            try:
+                import pathlib
+                rr = darr.RaggedArray('data/x.darr' if spec.get('seed', 1) % 2 else pathlib.Path('data') / 'x.darr')
+                code = rr.readcode(lang, abspath=(pm == 'abs'), basepath=(basepath if pm == 'base' else None))
+                rr = None
+            finally:
+                os.chdir(old)
+        else:
+            code = ra.readcode(lang, abspath=(pm == 'abs'), basepath=(basepath if pm == 'base' else None))
         want_offer = offered_by_docs(lang, vt, itp)
         if (code is not None) != want_offer:
             out.viol('offer-rule-mismatch', f'{lang}:{vt}:{itp}', f'code is {"offered" if code is not None else "withheld"} for values {vt} / indices {itp}; '
@@ -280,6 +293,7 @@ def extra_specs():
         for pm in ('base', 'abs'):
             for atom in ((), (3, 2)):
                 yield {'lang': lang, 'vt': 'int32', 'it': 'int64', 'atom': list(atom), 'lens': [1, 0, 2], 'bo': '>', 'pm': pm, 'seed': 2}
+                yield {'lang': lang, 'vt': 'int32', 'it': 'int64', 'atom': list(atom), 'lens': [1, 0, 2], 'bo': '>', 'pm': pm, 'seed': 2 + len(atom), 'relopen': True}
 
 
 @st.composite
@@ -289,7 +303,8 @@ def st_spec(draw):
     if sum(lens) == 0:
         lens[draw(st.integers(0, len(lens) - 1))] = 1
     return {'lang': draw(st.sampled_from(LANGS)), 'vt': draw(st.sampled_from(NUMTYPES)), 'it': draw(st.sampled_from(INDEXTYPES)), 'atom': atom,
-            'lens': lens, 'bo': draw(st.sampled_from('<>')), 'pm': draw(st.sampled_from(['rel', 'base', 'abs'])), 'seed': draw(st.integers(0, 2 ** 20)), 'churn': draw(st.booleans())}
+            'lens': lens, 'bo': draw(st.sampled_from('<>')), 'pm': draw(st.sampled_from(['rel', 'base', 'abs'])), 'seed': draw(st.integers(0, 2 ** 20)), 'churn': draw(st.booleans()),
+            'relopen': draw(st.booleans())}
 
 
 def task_enum(ctx, col, shard, stride):
